@@ -33,7 +33,7 @@ from ..rules import call_sites, node_calls
 from ..mutate import mutate, remove_stmts, replace_expr, replace_stmt, parse_stmt, parse_expr
 from ..model import AnalysisError
 from ..x_cookie import analyse, JAR, text_params
-from ..x_taint import detects_all, expr_tainted
+from ..x_taint import detects_all, expr_tainted, raise_after_mutation
 
 TECHNIQUE = "flow-sensitive taint to the morsel stores with automaton-decided regex guards; typestate for delete-before-set and emit-before-write; who-may-write on the cookie jar"
 EXPLANATION = (
@@ -127,6 +127,83 @@ def check_last_wins(ck, fi):
                   construct="re-set without delete: " + q.normalize_construct(s.ast, q.local_names(fi.node)))
 
 
+def _jar_aliases(fi):
+    out = set()
+    for n in q.walk_body(fi.node):
+        if isinstance(n, ast.Assign) and isinstance(n.value, ast.Subscript) and q.dotted(n.value.value) == JAR:
+            out |= {t.id for t in n.targets if isinstance(t, ast.Name)}
+    return out
+
+
+def jar_mutation(fi):
+    """Node predicate: the statement changes what the jar holds for some name
+    (store / delete / pop / clear / update on the jar or on a morsel taken from
+    it, or rebinding the jar when one may already exist)."""
+    aliases = _jar_aliases(fi)
+    conts = {JAR} | aliases
+
+    def pred(n):
+        if n.kind != "stmt":
+            return False
+        st = n.ast
+        if isinstance(st, (ast.Assign, ast.AugAssign, ast.AnnAssign)):
+            tgts = st.targets if isinstance(st, ast.Assign) else [st.target]
+            for t in tgts:
+                if isinstance(t, ast.Subscript) and q.dotted(t.value) in conts:
+                    return True
+        if isinstance(st, ast.Delete):
+            for t in st.targets:
+                if (isinstance(t, ast.Subscript) and q.dotted(t.value) in conts) or q.dotted(t) == JAR:
+                    return True
+        for c in q.calls(st):
+            if isinstance(c.func, ast.Attribute) and q.dotted(c.func.value) in conts and c.func.attr in ("pop", "popitem", "clear", "update", "setdefault", "load", "set", "__delitem__", "__setitem__"):
+                return True
+        return False
+
+    return pred
+
+
+def check_refuse_before_mutate(ck, fi):
+    """A set_cookie call that is going to be rejected must not have touched the
+    jar: otherwise a failing call damages the cookie an earlier, successful call
+    queued (the response then no longer carries what that call was promised)."""
+    cfg = fi.cfg
+    mut = jar_mutation(fi)
+    n_mut = len(cfg.stmt_nodes(mut))
+    ck.floor("C25.refuse-before-mutate", n_mut, 3, "jar/morsel mutations in set_cookie")
+    def rejecting_helper(c):
+        """a call of a RequestHandler method / web.py function whose own body raises"""
+        h = None
+        if isinstance(c.func, ast.Attribute) and q.dotted(c.func.value) == "self" and ck.repo.has_func(WEB, RH + "." + c.func.attr):
+            h = ck.repo.func(WEB, RH + "." + c.func.attr)
+        elif isinstance(c.func, ast.Name) and ck.repo.has_func(WEB, c.func.id):
+            h = ck.repo.func(WEB, c.func.id)
+        return h is not None and h is not fi and any(isinstance(x, ast.Raise) for x in q.walk_body(h.node))
+
+    is_rejection = lambda n: n.kind in ("stmt", "test") and n.ast is not None and (isinstance(n.ast, ast.Raise) or any(rejecting_helper(c) for c in q.calls(n.ast)))
+    raises = cfg.stmt_nodes(is_rejection)
+    ck.floor("C25.refuse-before-mutate", len(raises), 1, "rejections (raise / validating helper) in set_cookie")
+    bad = {r.id: m for r, m in raise_after_mutation(cfg, mut, is_rejection)}
+    for r in raises:
+        m = bad.get(r.id)
+        ck.ob("C25.refuse-before-mutate", fi, r.ast, m is None,
+              "every rejection of set_cookie's arguments happens before the jar is touched%s" % ("" if m is None else " (reachable after '%s')" % q.unparse(m.ast).split("\n")[0][:60]),
+              construct="raise reachable after the jar was modified: " + q.normalize_construct(r.ast.exc if isinstance(r.ast, ast.Raise) and r.ast.exc is not None else r.ast, q.local_names(fi.node))[:120])
+    # the same for the argument checks of the sibling APIs that delegate to set_cookie
+    is_raise = lambda n: n.kind == "stmt" and isinstance(n.ast, ast.Raise)
+    delegating = lambda n: n.kind == "stmt" and any(q.is_call(c, "self.set_cookie", "self.clear_cookie") for c in q.calls(n.ast))
+    for nm in ("clear_cookie", "set_signed_cookie", "clear_all_cookies"):
+        sib = ck.func(WEB, RH + "." + nm)
+        late = {r.id for r, _m in raise_after_mutation(sib.cfg, delegating, is_raise)}
+        for r in sib.cfg.stmt_nodes(is_raise):
+            ck.ob("C25.refuse-before-mutate", sib, r.ast, r.id not in late, "%s rejects its arguments before it starts setting cookies" % nm)
+    # the jar itself is created once: rebinding it would drop every cookie queued so far
+    from ..cfg import must_facts, holds
+    facts = must_facts(cfg)
+    for n in cfg.stmt_nodes(lambda n: n.kind == "stmt" and isinstance(n.ast, (ast.Assign, ast.AnnAssign)) and JAR in q.assigned_paths(n.ast)):
+        ck.ob("C25.refuse-before-mutate", fi, n.ast, holds(facts[n.id], "hasattr(self, '_new_cookie')", False), "the cookie jar is (re)created only when none exists yet", construct="jar rebound although it may exist")
+
+
 def check_emit(ck):
     fl = ck.func(WEB, RH + ".flush")
     cfg = fl.cfg
@@ -201,11 +278,13 @@ def run(ck):
     ck.rule("C25.attr-validated", "set_cookie: the cookie name and every text value stored into the morsel are covered by a check that detects ';' (or are constants / formatted timestamps / str of an int parameter)")
     ck.rule("C25.separator-agreement", "the separator parse_cookie splits on is detected by set_cookie's attribute check")
     ck.rule("C25.last-wins", "set_cookie removes an existing morsel of the same name before storing the new value")
+    ck.rule("C25.refuse-before-mutate", "set_cookie (and the APIs delegating to it) raise for rejected arguments only before the cookie jar or a morsel was modified, so a rejected call cannot damage an earlier cookie")
     ck.rule("C25.emit", "flush emits every morsel exactly once as its own Set-Cookie line (add_header + OutputString(None)) before write_headers")
     ck.rule("C25.funnel", "only set_cookie writes the jar; clear_cookie/set_signed_cookie delegate to it with the name and all keyword attributes; clear_cookie uses an empty value and a past expiry")
     fi, loops = check_set_cookie(ck)
     check_separator_agreement(ck, loops)
     check_last_wins(ck, fi)
+    check_refuse_before_mutate(ck, fi)
     check_emit(ck)
     check_funnel(ck)
 
@@ -284,6 +363,10 @@ MUTANTS = [
     ("attribute regex no longer contains ';'", _in(WEB, RH + ".set_cookie", _regex("\\x3b", "")), ("C25.attr-validated", "C25.separator-agreement")),
     ("attribute check uses re.match (first character only)", _in(WEB, RH + ".set_cookie", _search_to_match), "C25.attr-validated"),
     ("validation loop moved behind the morsel stores", _in(WEB, RH + ".set_cookie", _validation_last), "C25.attr-validated"),
+    ("jar creation and removal of the old cookie hoisted above the validation (seeded C25-adv1)", _in(WEB, RH + ".set_cookie", lambda root: _hoist_jar_ops(root)), "C25.refuse-before-mutate"),
+    ("cookie stored before the attribute validation runs", _in(WEB, RH + ".set_cookie", lambda root: _store_before_validation(root)), ("C25.refuse-before-mutate", "C25.attr-validated")),
+    ("clear_cookie checks its excluded arguments after clearing", _in(WEB, RH + ".clear_cookie", lambda root: _check_last(root)), "C25.refuse-before-mutate"),
+    ("a new jar is created on every set_cookie", _in(WEB, RH + ".set_cookie", replace_expr(lambda n: isinstance(n, ast.UnaryOp) and "hasattr" in _u(n) and "_new_cookie" in _u(n), lambda n: ast.Constant(value=True))), "C25.refuse-before-mutate"),
     ("existing morsel not deleted before re-set", _in(WEB, RH + ".set_cookie", remove_stmts(lambda st: isinstance(st, ast.If) and "in self._new_cookie" in _u(st.test) and not isinstance(st.test, ast.UnaryOp))), "C25.last-wins"),
     ("delete-before-set only for secure cookies", _in(WEB, RH + ".set_cookie", replace_expr(lambda n: isinstance(n, ast.Compare) and _u(n) == "name in self._new_cookie", lambda n: parse_expr("name in self._new_cookie and secure"))), "C25.last-wins"),
     ("Set-Cookie emitted with set_header (only the last cookie survives)", _in(WEB, RH + ".flush", replace_expr(lambda n: isinstance(n, ast.Attribute) and n.attr == "add_header", lambda n: ast.Attribute(value=n.value, attr="set_header", ctx=ast.Load()))), "C25.emit"),
@@ -310,4 +393,50 @@ def _drop_star(root):
             before = len(n.iter.elts)
             n.iter.elts = [e for e in n.iter.elts if not isinstance(e, ast.Starred)]
             return len(n.iter.elts) < before
+    return False
+
+
+def _hoist_jar_ops(root):
+    body = root.body
+    moved = []
+    for st in list(body):
+        if isinstance(st, ast.If) and "_new_cookie" in _u(st.test) and ("hasattr" in _u(st.test) or " in self._new_cookie" in _u(st.test)):
+            body.remove(st)
+            moved.append(st)
+    if len(moved) < 2:
+        return False
+    # after the docstring and the two native_str conversions
+    idx = 0
+    for i, st in enumerate(body):
+        if isinstance(st, ast.Assign) and "native_str" in _u(st.value):
+            idx = i + 1
+    body[idx:idx] = moved
+    return True
+
+
+def _store_before_validation(root):
+    body = root.body
+    store = None
+    for st in body:
+        if isinstance(st, ast.Assign) and any(isinstance(t, ast.Subscript) and q.dotted(t.value) == JAR for t in st.targets):
+            store = st
+    jar = [st for st in body if isinstance(st, ast.If) and "hasattr" in _u(st.test) and "_new_cookie" in _u(st.test)]
+    if store is None or not jar:
+        return False
+    for i, st in enumerate(body):
+        if _is_validation_loop(st):
+            body.remove(store)
+            body.remove(jar[0])
+            j = body.index(st)
+            body[j:j] = [jar[0], store]
+            return True
+    return False
+
+
+def _check_last(root):
+    body = root.body
+    for i, st in enumerate(body):
+        if isinstance(st, ast.For) and any(isinstance(x, ast.Raise) for x in ast.walk(st)):
+            body.append(body.pop(i))
+            return True
     return False
